@@ -92,9 +92,10 @@ func c13Gid() int64 {
 }
 
 type c13Lock struct {
-	mu    sync.Mutex
-	owner int64
-	depth int
+	mu      sync.Mutex
+	owner   int64
+	depth   int
+	onFinal func() // called when the outermost Unlock is about to release the lock
 }
 
 func (l *c13Lock) Lock() {
@@ -111,6 +112,9 @@ func (l *c13Lock) Lock() {
 func (l *c13Lock) Unlock() {
 	l.depth--
 	if l.depth == 0 {
+		if l.onFinal != nil {
+			l.onFinal()
+		}
 		atomic.StoreInt64(&l.owner, 0)
 		l.mu.Unlock()
 	}
@@ -202,6 +206,8 @@ type c13Run struct {
 	tr    c13Lock
 	ev    []map[string]interface{}
 	nev   int64
+	out   *os.File
+	wrote int
 
 	sw         *p2p.Switch
 	bcR        *BlockchainReactor
@@ -225,6 +231,21 @@ type c13Run struct {
 	skipped int
 	rng     *rand.Rand
 	lies    int
+}
+
+// events are written out as soon as the trace lock is released (all their fields are
+// complete then), so that a run cut short by a panic inside the reactor's own goroutine
+// (which kills the process) still leaves what was observed up to that point
+func (r *c13Run) flush() {
+	if r.out == nil {
+		return
+	}
+	enc := json.NewEncoder(r.out)
+	for ; r.wrote < len(r.ev); r.wrote++ {
+		if err := enc.Encode(r.ev[r.wrote]); err != nil {
+			panic(err)
+		}
+	}
 }
 
 func (r *c13Run) log(e map[string]interface{}) map[string]interface{} {
@@ -534,7 +555,7 @@ func (r *c13Run) doStatus(name string, base, height int64) bool {
 	r.tr.Lock()
 	defer r.tr.Unlock()
 	p := r.alive[name]
-	if p == nil {
+	if p == nil || r.isHanded() {
 		return false
 	}
 	e := r.log(map[string]interface{}{"ev": "Status", "p": name, "base": int(base), "height": int(height)})
@@ -559,7 +580,7 @@ func (r *c13Run) doResponse(name string, h int64, kind string) bool {
 	r.tr.Lock()
 	defer r.tr.Unlock()
 	p := r.alive[name]
-	if p == nil {
+	if p == nil || r.isHanded() { // after the hand-over the pool is stopped: nothing is processed any more
 		return false
 	}
 	found := false
@@ -627,7 +648,7 @@ func (r *c13Run) doTimeout(name string) bool {
 	bp := pool.peers[c13PeerID(name)]
 	ok := bp != nil && !bp.didTimeout && bp.numPending > 0
 	pool.mtx.Unlock()
-	if !ok || r.alive[name] == nil {
+	if !ok || r.alive[name] == nil || r.isHanded() {
 		return false
 	}
 	e := r.log(map[string]interface{}{"ev": "Timeout", "p": name})
@@ -969,27 +990,28 @@ func TestVerifC13(t *testing.T) {
 			r := &c13Run{ch: ch, in: &in, sc: sc, runNo: i + 1, honest: map[string]bool{}, alive: map[string]*c13Peer{},
 				outbox: map[string][]int64{}, joins: map[string]int{}, lastWhy: map[string]string{},
 				rng: rand.New(rand.NewSource(sc.Seed*7919 + int64(i)))}
+			f, err := os.Create(filepath.Join(outDir, fmt.Sprintf("run-%05d.ndjson", i+1)))
+			if err != nil {
+				panic(err)
+			}
+			r.out = f
+			r.tr.onFinal = r.flush
 			r.setup()
 			r.execute()
 			r.teardown()
+			r.tr.Lock()
+			r.tr.Unlock()
+			f.Close()
 			results[i] = r.ev
 		}(i)
 	}
 	wg.Wait()
-	f, err := os.Create(filepath.Join(outDir, "trace.ndjson"))
-	if err != nil {
-		t.Fatal(err)
-	}
-	enc := json.NewEncoder(f)
 	n := 0
 	for _, evs := range results {
-		for _, e := range evs {
-			if err := enc.Encode(e); err != nil {
-				t.Fatal(err)
-			}
-			n++
-		}
+		n += len(evs)
 	}
-	f.Close()
+	if err := os.WriteFile(filepath.Join(outDir, "done"), []byte("ok\n"), 0o600); err != nil {
+		t.Fatal(err)
+	}
 	t.Logf("C13 harness: %d runs, %d events", len(in.Scheds), n)
 }
